@@ -24,27 +24,69 @@ import time
 from vlib.common import HARNESS
 
 WDOG_POLL = 2
-NET = "127.9.7."
-TALK = [NET + str(i) for i in range(1, 7)]
-MUTE = [NET + str(i) for i in range(7, 9)]
-TALKHANG = [NET + str(i) for i in range(9, 11)]
-SHIMMED = [NET + str(i) for i in range(11, 17)]      # nobody listens there; the shim decides
+NET = "127.9.7."            # the preferred /24; a Peer takes another one (127.9.K.) when somebody else listens there
+
+
+def role(addr):
+    """behaviour of an address = its last octet (the /24 is chosen per run, see Peer)"""
+    try:
+        k = int(addr.rsplit(".", 1)[1])
+    except (ValueError, IndexError):
+        return None
+    return ("talk" if 1 <= k <= 6 else "mute" if 7 <= k <= 8 else "talkhang" if 9 <= k <= 10 else
+            "shimmed" if 11 <= k <= 16 else "blackhole" if 17 <= k <= 18 else None)
+
+
+def addrs(net, kind):
+    return [net + str(k) for k in range(1, 19) if role(net + str(k)) == kind]
 
 
 class Peer:
-    """scripted rsh server; behaviour is fixed per address, so cases can run in parallel"""
+    """scripted rsh server; behaviour is fixed per address, so cases can run in parallel.  Several checks may run on
+    one machine at the same time (parallel sweeps): each Peer owns a /24 of its own inside 127.9.0.0/16 -- the first
+    one in which it can listen on every address it needs."""
 
-    def __init__(self):
+    def __init__(self, prefer=NET):
         self.log = []          # (addr, request bytes)
         self.lock = threading.Lock()
         self.socks = []
         self.held = []
-        for a in TALK + MUTE + TALKHANG:
+        self.net = None
+        cands = [prefer] + ["127.9.%d." % (7 + (os.getpid() * 31 + j * 17) % 241) for j in range(1, 60)]
+        last = None
+        for net in cands:
+            try:
+                self.listen_on(net)
+                self.net = net
+                break
+            except OSError as e:
+                last = e
+                self.close()
+                self.socks, self.held = [], []
+        if self.net is None:
+            raise last or OSError("no free 127.9.K.0/24")
+
+    def listen_on(self, net):
+        for a in addrs(net, "talk") + addrs(net, "mute") + addrs(net, "talkhang"):
             s = socket.socket()
+            self.socks.append(s)
             s.setsockopt(socket.SOL_SOCKET, socket.SO_REUSEADDR, 1)
             s.bind((a, 514))
             s.listen(64)
+        for a in addrs(net, "blackhole"):
+            # a listener that never accepts and whose backlog is full: the kernel drops further SYNs, so a connect()
+            # to it blocks in the kernel (no shim involved) until a signal interrupts it
+            s = socket.socket()
             self.socks.append(s)
+            s.setsockopt(socket.SOL_SOCKET, socket.SO_REUSEADDR, 1)
+            s.bind((a, 514))
+            s.listen(0)
+            for _ in range(3):
+                c = socket.socket()
+                c.setblocking(False)
+                c.connect_ex((a, 514))
+                self.held.append(c)
+        for s, a in zip(self.socks, addrs(net, "talk") + addrs(net, "mute") + addrs(net, "talkhang")):
             threading.Thread(target=self.accept_loop, args=(s, a), daemon=True).start()
 
     def accept_loop(self, s, addr):
@@ -83,11 +125,11 @@ class Peer:
                 data += b
             with self.lock:
                 self.log.append((addr, data))
-            if addr in MUTE:
+            if role(addr) == "mute":
                 c.recv(1)                   # never answer; wait until pdsh gives up and closes
                 return
             c.sendall(b"\0")
-            if addr in TALKHANG:
+            if role(addr) == "talkhang":
                 c.sendall(("first-%s\n" % addr).encode())
                 c.recv(1)                   # hold the stream open
                 return
@@ -109,8 +151,11 @@ class Peer:
             return [(a, d) for a, d in self.log if token.encode() in d]
 
     def close(self):
-        for s in self.socks:
-            s.close()
+        for s in self.socks + self.held:
+            try:
+                s.close()
+            except OSError:
+                pass
 
 
 def build_shim(ctx):
@@ -145,7 +190,7 @@ def teardown_cases():
             {"id": 901, "token": "tokclo0901", "ct": 1, "ut": 1, "fanout": 2, "hosts": [("e0", "exec"), ("z0", "closer")]}]
 
 
-def gen_case(rng, idx, thorough, must=None):
+def gen_case(rng, idx, thorough, must=None, net=NET):
     """one mixed run; every timing parameter small"""
     ct = rng.choice([1, 2])
     ut = 2 if must in ("talkhang", "chatty") else (rng.choice([0, 0, 2]) if thorough else rng.choice([0, 2]))
@@ -153,11 +198,12 @@ def gen_case(rng, idx, thorough, must=None):
     nexec = rng.randrange(1, 4)
     for k in range(nexec):
         hosts.append(("e%d" % k, "exec"))
-    pool = {"talk": list(TALK), "mute": list(MUTE), "talkhang": list(TALKHANG), "hang": list(SHIMMED[:3]),
-            "refuse": list(SHIMMED[3:])}
+    sh = addrs(net, "shimmed")
+    pool = {"talk": addrs(net, "talk"), "mute": addrs(net, "mute"), "talkhang": addrs(net, "talkhang"),
+            "hang": sh[:3], "refuse": sh[3:], "blackhole": addrs(net, "blackhole")}
     pool["chatty"] = ["c0", "c1"]
-    kinds = ["talk", "hang", "mute", "refuse"] + (["talkhang", "chatty"] if ut > 0 else [])
-    must = must or rng.choice(["hang", "hang", "mute", "refuse"])   # every case has a failing host
+    kinds = ["talk", "hang", "mute", "refuse", "blackhole"] + (["talkhang", "chatty"] if ut > 0 else [])
+    must = must or rng.choice(["hang", "hang", "mute", "refuse", "blackhole"])   # every case has a failing host
     chosen = [must] + [rng.choice(kinds) for _ in range(rng.randrange(1, 4))]
     for kd in chosen:
         if pool[kd]:
@@ -167,7 +213,35 @@ def gen_case(rng, idx, thorough, must=None):
     n = len(hosts)
     fan = rng.choice([n, n + 1, max(2, n - 1)]) if thorough else n
     return {"id": idx, "token": "tok%04d%04d" % (idx, rng.randrange(10000)), "ct": ct, "ut": ut, "fanout": fan,
-            "hosts": hosts}
+            "hosts": hosts, "net": net}
+
+
+def pinned_cases(net=NET):
+    """The cases EVERY run executes (no random draw decides whether a fault kind, a timeout option or a position
+    relative to the fanout window is covered): each fault kind of the real transport alone next to healthy hosts with
+    room for everybody; then the faulty host FIRST / LAST with fanout 1 (the healthy ones queue behind it / it queues
+    behind them), -t only, -u only (connect timeout left at a value no fault needs), both."""
+    first = {"hang": addrs(net, "shimmed")[0], "refuse": addrs(net, "shimmed")[3], "mute": addrs(net, "mute")[0],
+             "talkhang": addrs(net, "talkhang")[0], "blackhole": addrs(net, "blackhole")[0], "chatty": "c0"}
+    talk = addrs(net, "talk")
+    out = []
+
+    def add(kind, ct, ut, fan, pos):
+        healthy = [("e0", "exec"), (talk[len(out) % len(talk)], "talk"), ("e1", "exec")]
+        bad = (first[kind], kind)
+        hosts = [bad] + healthy if pos == "first" else healthy + [bad] if pos == "last" else healthy[:1] + [bad] + healthy[1:]
+        i = len(out)
+        out.append({"id": 800 + i, "token": "tokpin%04d" % (800 + i), "ct": ct, "ut": ut,
+                    "fanout": len(hosts) if fan is None else fan, "hosts": hosts, "net": net, "pinned": True})
+    for kind in ("hang", "blackhole", "mute", "refuse"):
+        add(kind, 1, 0, None, "mid")                     # -t only
+    for kind in ("talkhang", "chatty"):
+        add(kind, 10, 2, None, "mid")                    # -u only (the default connect timeout)
+    add("hang", 1, 2, 1, "first")                        # both, fanout 1, the hanging host holds the only slot first
+    add("blackhole", 2, 0, 1, "last")
+    add("mute", 2, 2, 2, "first")
+    add("talkhang", 1, 2, 1, "first")
+    return out
 
 
 REFUSE_OBSERVED = 8.0     # xrcmd's back-off 1,2,4,8,16 s with every sleep after the deadline cut to one watchdog period
@@ -180,13 +254,15 @@ def expected_wall(case, refuse=None):
     ct, ut = case["ct"], case["ut"]
     per = 0.5
     for _, kd in case["hosts"]:
-        if kd in ("hang", "mute"):
+        if kd in ("hang", "mute", "blackhole"):
             per = max(per, ct + WDOG_POLL)
         elif kd == "refuse":
             per = max(per, refuse if refuse is not None else ct + WDOG_POLL)
         elif kd in ("talkhang", "chatty") + TEARDOWN_KINDS:
             per = max(per, ut + WDOG_POLL + 0.5)
     rounds = 1 if case["fanout"] >= len(case["hosts"]) else 2
+    # (with fanout < N the faulty hosts are spread over at most two rounds in every generated case: at most 4 faulty
+    # hosts, fanout >= N - 1 or exactly one faulty host)
     return per * rounds
 
 
@@ -219,7 +295,7 @@ def run_case(exe, shim, helper, case, scratch, hard_timeout=None):
 # what the property asks for is a report under the host's own name; the texts are xrcmd.c's / dsh.c's.  A refusing
 # host is reported as refused when its retries end before the connect timeout, and as timed out when the
 # connect timeout ends the retries (repaired xrcmd.c: an interrupted back-off sleep is the expired timeout)
-REPORT = {"hang": (": connect: timed out",), "mute": (": read: protocol failure: timed out",),
+REPORT = {"hang": (": connect: timed out",), "blackhole": (": connect: timed out",), "mute": (": read: protocol failure: timed out",),
           "refuse": (": connect: Connection refused", ": connect: timed out"), "talkhang": (": command timeout",),
           "chatty": (": command timeout",), "immortal": (": command timeout",)}
 
@@ -289,7 +365,11 @@ def replay_case(ctx, cov, case):
     repo = ctx.repo_build()
     if not repo:
         return
-    peer = Peer()
+    net = case.get("net", NET)
+    peer = Peer(prefer=net)
+    if peer.net != net:         # somebody else listens there now: the same case in the /24 this run got
+        case = dict(case, net=peer.net,
+                    hosts=[(peer.net + a[len(net):] if a.startswith(net) else a, kd) for a, kd in case["hosts"]])
     try:
         shim = build_shim(ctx)
         helper = make_helper(ctx)
@@ -317,7 +397,7 @@ def run_part(ctx, cov, quick):
     try:
         peer = Peer()
     except OSError as e:
-        summary["skipped"] = "cannot listen on %s1:514 (%s)" % (NET, e)
+        summary["skipped"] = "cannot listen on port 514 of any 127.9.K.0/24 tried (%s)" % (e,)
         ctx.log("real rsh part skipped: %s" % summary["skipped"])
         return
     try:
@@ -326,10 +406,13 @@ def run_part(ctx, cov, quick):
             return
         helper = make_helper(ctx)
         exe = os.path.join(repo, "src/pdsh/pdsh")
-        n = 8 if quick else 40
-        fixed = ["hang", "mute", "refuse", "talkhang", "chatty", "hang"]
-        cases = teardown_cases() + \
-            [gen_case(ctx.rng, i, not quick, must=fixed[i] if i < len(fixed) else None) for i in range(n)]
+        n = 4 if quick else 40
+        fixed = ["hang", "mute", "refuse", "talkhang", "chatty", "blackhole"]
+        cases = teardown_cases() + pinned_cases(peer.net) + \
+            [gen_case(ctx.rng, i, not quick, must=fixed[i] if i < len(fixed) and not quick else None, net=peer.net)
+             for i in range(n)]
+        summary["net"] = peer.net
+        summary["pinned"] = len(pinned_cases(peer.net))
         slack = 4.0
 
         def one(c):
@@ -338,8 +421,10 @@ def run_part(ctx, cov, quick):
             results = list(ex.map(one, cases))
         for c, r in results:
             fun, tim = judge(c, r, peer, slack)
-            if tim and not fun and not all(sg.endswith(":refused-connect-retried") for sg, _ in tim):
-                # a loaded machine: once more, alone, before anything is said about timing
+            hung = r["rc"] is None and not any(kd in TEARDOWN_KINDS for _, kd in c["hosts"])
+            if hung or (tim and not fun and not all(sg.endswith(":refused-connect-retried") for sg, _ in tim)):
+                # a loaded machine: once more, alone, before anything is said about timing (or about not ending
+                # within the hard limit)
                 summary["retried_for_timing"] += 1
                 r = run_case(exe, shim, helper, c, ctx.scratch)
                 fun, tim = judge(c, r, peer, slack)
